@@ -329,3 +329,125 @@ num_harness!(num_exact_integer_sqrt_small, 40, {
         }
     }
 });
+
+// ------------------------------------------------------------------ big-integer operands
+fn big(a: i128) -> SteelVal {
+    BigNum(Gc::new(BigInt::from(a)))
+}
+
+// BigNum + IntV: the sum may fall back into the machine range and must then be an IntV again
+num_harness!(num_add_big_i, 6, {
+    let a: i128 = kani::any();
+    kani::assume((a >= (1i128 << 63) && a < (1i128 << 63) + (1i128 << 20)) || (a < -(1i128 << 63) && a >= -(1i128 << 63) - (1i128 << 20)));
+    let y: isize = kani::any();
+    let x = big(a);
+    let yv = IntV(y);
+    let swap: bool = kani::any();
+    let r = if swap { add_two(&yv, &x) } else { add_two(&x, &yv) };
+    kani::cover!(matches!(r, Ok(IntV(_))), "fell back into the machine range");
+    kani::cover!(matches!(r, Ok(BigNum(_))), "stayed big");
+    match r {
+        Ok(v) => {
+            check_exact_int(&v, a + y as i128);
+            core::mem::forget(v);
+        }
+        Err(e) => {
+            core::mem::forget(e);
+            vassert!(false, "big + small integer returned an error");
+        }
+    }
+    core::mem::forget(x);
+});
+
+// (- big small) goes through negate + add_two
+num_harness!(num_sub_big_i, 6, {
+    let a: i128 = kani::any();
+    kani::assume(a >= (1i128 << 63) && a < (1i128 << 63) + (1i128 << 20));
+    let y: isize = kani::any();
+    let args = [big(a), IntV(y)];
+    let r = subtract_primitive(&args);
+    kani::cover!(matches!(r, Ok(IntV(_))), "fell back into the machine range");
+    match r {
+        Ok(v) => {
+            check_exact_int(&v, a - y as i128);
+            core::mem::forget(v);
+        }
+        Err(e) => {
+            core::mem::forget(e);
+            vassert!(false, "big - small integer returned an error");
+        }
+    }
+    core::mem::forget(args);
+});
+
+// floor-remainder / modulo with a small dividend and a two-limb divisor of either sign
+num_harness!(num_floor_remainder_i_big, 8, {
+    let l: isize = kani::any();
+    let neg: bool = kani::any();
+    let m: i128 = if neg { -(1i128 << 64) } else { 1i128 << 64 };
+    let args = [IntV(l), big(m)];
+    let r = floor_remainder(&args);
+    kani::cover!(l < 0 && !neg, "negative dividend, positive divisor");
+    kani::cover!(l > 0 && neg, "positive dividend, negative divisor");
+    match r {
+        Ok(v) => {
+            check_exact_int(&v, floor_mod(l as i128, m));
+            core::mem::forget(v);
+        }
+        Err(e) => {
+            core::mem::forget(e);
+            vassert!(false, "floor-remainder by a big integer returned an error");
+        }
+    }
+    core::mem::forget(args);
+});
+
+// ------------------------------------------------------------------ rationals
+// negate of a reduced rational n/3 for every i32 numerator not divisible by 3
+num_harness!(num_neg_rational, 8, {
+    let n: i32 = kani::any();
+    kani::assume(n % 3 != 0);
+    let q = Rational(Rational32::new_raw(n, 3));
+    let r = negate(&q);
+    kani::cover!(n == i32::MIN, "most negative numerator");
+    kani::cover!(n > 0, "positive");
+    match r {
+        Ok(Rational(x)) => {
+            vassert!(*x.numer() as i64 == -(n as i64) && *x.denom() == 3, "negated rational has the wrong value");
+        }
+        Ok(BigRational(b)) => {
+            vassert!(n == i32::MIN, "small rational promoted without need");
+            vassert!(b.numer().to_i64() == Some(-(n as i64)) && b.denom().to_i64() == Some(3), "negated rational (promoted) has the wrong value");
+            core::mem::forget(b);
+        }
+        Ok(other) => {
+            core::mem::forget(other);
+            vassert!(false, "negating a non-integral rational gave a non-rational");
+        }
+        Err(e) => {
+            core::mem::forget(e);
+            vassert!(false, "negating a rational returned an error");
+        }
+    }
+});
+
+// = between an exact integer and a double: true exactly when the double is that integer
+num_harness!(num_int_float_equality, 4, {
+    let i: isize = kani::any();
+    let f: f64 = kani::any();
+    kani::assume(f.is_finite());
+    let r = crate::rvals::number_equality(&IntV(i), &NumV(f));
+    // exact comparison: f is integral, within the 64-bit range, and equal as integers
+    let exact = f == f.trunc() && f >= -9223372036854775808.0 && f < 9223372036854775808.0 && (f as i128) == (i as i128);
+    kani::cover!(exact, "equal");
+    kani::cover!(!exact && (i as f64) == f, "rounds to the same double but differs");
+    match r {
+        Ok(BoolV(b)) => {
+            vassert!(b == exact, "= on an exact integer and a double disagrees with their exact values");
+        }
+        other => {
+            core::mem::forget(other);
+            vassert!(false, "= on numbers did not return a boolean");
+        }
+    }
+});
